@@ -22,7 +22,10 @@ pub fn prop() -> Prop {
                arrays, objects, literals); strings: every string/key length 1..=140 x every byte position x \
                three ill-formed byte values, as a value and as a key (enumerated); wide: objects of 15-40 \
                members with multi-byte keys, every single-bit flip in the header and entry-word area and \
-               every key length rewritten by +-1..3 (enumerated). Oracle: from_slice and parse_jsonb never panic; every string and key \
+               every key length rewritten by +-1..3 (enumerated); shaped: valid JSON texts of 0.6-2.3 MB beginning with a quote, \
+               digit or minus sign whose bytes 4..8, read as a scalar entry word, carry each entry type and a length that \
+               fits the rest of the text exactly or with 1 / 9 bytes to spare (enumerated; the texts a decoder that \
+               recognises a scalar encoding by less than the exact header would misread). Oracle: from_slice and parse_jsonb never panic; every string and key \
                of an Ok value is well-formed UTF-8 (checked on the raw bytes); every proper prefix of a valid \
                encoding is Err for both; from_slice(text) equals the reference parser's value. Allocation size \
                is not judged. Non-trivial = mutated input of >= 8 bytes with a valid header type that differs \
